@@ -495,14 +495,16 @@ def rule_declared_order(F, ev, R, config, rule="R-DECLARED-ORDER"):
     # roles by use: which field is passed as which argument of the wrapper constructor
     role = {}
     wsites = []
+    from effects import iteration_effects
+    ev = Eval(F, opaque=set(ev.opaque) | {W.key})
+    wcid = strip_generics(W.j["path"])
     for b in methods:
-        env = Env(b)
         me = ("param", b.key, 1)
-        for bi, t in b.calls():
-            if "fn" in t and (t["fn"].get("resolved_key") or t["fn"].get("key")) == W.key:
-                a0 = ev.operand(env, t["args"][0], (bi, None))
-                a1 = ev.operand(env, t["args"][1], (bi, None))
-                wsites.append((b, bi, t, a0, a1))
+        # the call may sit in the method or in a closure / helper it runs (`.and_then(|()| wrap(..))`)
+        for e in iteration_effects(ev, Env(b)):
+            if e.kind == "call" and e.cid == wcid and len(e.args) >= 2:
+                a0, a1 = e.args[0], e.args[1]
+                wsites.append((b, e.block, e.term, a0, a1))
                 for idx, a in ((0, a0), (1, a1)):
                     x = strip_copies(a)
                     if x[0] == "field" and x[1] == me and x[2] in lists:
